@@ -78,6 +78,15 @@ def _worker(args):
             st, _ = smt.satisfiable(list(axioms) + hyps)
             if st == "unsat":
                 out["vacuous"].append(fn)
+        # canary: at least one normally-returning path per case must have consistent hypotheses
+        alive = {}
+        for fn, hyps in getattr(res, "ret_paths", []):
+            st, _ = smt.satisfiable(list(axioms) + hyps, 3000)
+            alive[fn] = alive.get(fn, False) or st != "unsat"
+        for fn, ok in alive.items():
+            if not ok:
+                out["vacuous"].append(fn + " (every returning path has contradictory hypotheses)")
+        out["canaries"] = len(alive)
     except Exception:
         out["error"] = "checker crash: " + traceback.format_exc()[-1500:]
         out["crash"] = True
@@ -331,8 +340,10 @@ def main(argv=None):
         "wall_s": round(time.time() - t_start, 2),
         "violations": len(violations),
     }
-    os.makedirs(os.path.join(ROOT, "evidence"), exist_ok=True)
-    json.dump(ev, open(os.path.join(ROOT, "evidence", f"{prop}.json"), "w"), indent=1, default=str)
+    # evidence is only ever written for /repo itself; runs against a scratch copy (engine self-test) go elsewhere
+    evdir = os.path.join(ROOT, "evidence") if os.environ.get("VERIF_REPO", "/repo") == "/repo" else os.path.join(OUT, "scratch-evidence")
+    os.makedirs(evdir, exist_ok=True)
+    json.dump(ev, open(os.path.join(evdir, f"{prop}.json"), "w"), indent=1, default=str)
 
     # ---- report ------------------------------------------------------------------------------------------------------------
     print(f"[{prop}] functions under contract: {len(results)}; obligations: {len(vcs)} (+{n_lean} lean); discharged: {len(discharged)}; "
